@@ -45,8 +45,9 @@ def big_picture(w, h):
 
 
 # sizes whose sample counts are beyond what the model side is run on (crate only): around 2^16, and - area above 2^24,
-# where a sample count computed in single precision is no longer exact - odd x odd and extreme aspect ratios
-BIG_SIZES = [(255, 257), (1023, 65), (65, 1023), (4097, 4097), (65535, 257), (257, 65535), (8193, 2049), (65535, 1), (1, 65535)]
+# where a sample count computed in single precision is no longer exact - odd x odd and extreme aspect ratios; 8193x8193 has
+# 4097*4097 = 2^24 + 8193 chroma samples per plane, an odd count above 2^24 (seeds C13-f, C13-g)
+BIG_SIZES = [(255, 257), (1023, 65), (65, 1023), (4097, 4097), (8193, 8193), (65535, 257), (257, 65535), (8193, 2049), (65535, 1), (1, 65535)]
 
 
 def shape_only(toks):
@@ -100,7 +101,7 @@ def run(ctx):
               sample={"w": 17, "h": 9, "ops": ["D:<intra picture>", "X"]}, exhaustive=True,
               note="every width x height 1..40 (Sorenson custom sizes) with quantizers %s in rotation, plus standard-mode custom sizes with a predicted picture" % quants)
     # large pictures, implementation only: the size relations of theorem C13_new_picture_planes at sizes no model run reaches
-    big = BIG_SIZES if thorough else BIG_SIZES[:4] + BIG_SIZES[-2:]
+    big = BIG_SIZES if thorough else BIG_SIZES[:5] + BIG_SIZES[-2:]
     bcases = [(900000 + k, 1, ["G" + D(big_picture(w, h))[1:], "X"]) for k, (w, h) in enumerate(big)]
     bio = decsuite.run_impl(ctx, "c13big", bcases)
     bn = set()
